@@ -29,6 +29,9 @@ def gen(tier, rng, harness=None, driver=None):
     # M-Core-3: the proved translation of real function bodies against the real parser on printed functions and their single-point mutants
     from . import pC01
     lines += pC01.core3_parse_stream(rng, driver, n)
+    # M-Meta: undefined and doubly defined metadata IDs on real text (printed sections and their mutants) through the proved translation and the real parser
+    from . import metagen
+    lines += metagen.parse_stream(rng, driver, n)
     # systematic: every definition-site kind x every use-site kind of one function body under confusable namings (vlib/localgen.py)
     for kind, exp, text, sk in localgen.cases(rng, 20 if tier == "quick" else 400):
         lines.append("mod.outcome %s %s" % (hx(sk), hx(text)))
@@ -60,7 +63,7 @@ def nontrivial(ln, model_out):
 
 def search(ln, a, b, harness, driver):
     p = ln.split()
-    if p[0].startswith("core3."):
+    if p[0].startswith(("core3.", "meta.")):
         # the proved translation rejects what the implementation accepts (or the other way round): the text itself is the failing input
         if (a.split()[0] == "ok") != (b.split()[0] == "ok"):
             return {"ops": [ln], "impl": [a], "model": [b]}
